@@ -31,7 +31,7 @@ CHECKS = {
    text="Every fact set of <=4 (thorough <=5) triples x 15 constraint sets x 9 goals, each under every global ranking of the facts (all n! hash orders production can exhibit) and every deviation-bounded order strategy through hook H2, plus native no-oracle runs: query_with_repairs must return exactly the answers true in every subset-maximal consistent subset (brute force over 2^n subsets), identically for every order, and infer_new_facts_semi_naive_with_repairs must end consistent for 7 rule sets.",
    note="Order seam H2 behind cfg(kolibrie_verif) decides HashSet iteration order; filter-free denial constraints."),
  "C02": dict(level="exploration", design="§3 C02", technique="exhaustive enumeration of configurations (BGP permutations x statistics objects x join-algorithm assignments x scan flips x star expansion x pool sizes) executed on the real optimizer/engine, differential + SPARQL-algebra reference oracle",
-   text="For 20 join-rich query shapes every permutation of every triples block (<=24) is executed on 16 (thorough ~120) datasets: end to end, under five statistics objects (fresh, empty, all-zero, all-huge, inverted) through Streamertail::find_best_plan, with EVERY assignment of {bind, hash, nested-loop} to the join nodes of each distinct chosen plan (3^j), every scan flip, StarJoin expanded to left-deep joins, through the real stale cached_stats path (query, mutate, query), and with thread pools of 1..16 threads on a 210-triple dataset; every variant must return the reference solution multiset.",
+   text="For 20 join-rich query shapes every permutation of every triples block (<=24) is executed on 16 (thorough ~950) datasets: end to end, under five statistics objects (fresh, empty, all-zero, all-huge, inverted) through Streamertail::find_best_plan, with EVERY assignment of {bind, hash, nested-loop} to the join nodes of each distinct chosen plan (3^j), every scan flip, StarJoin expanded to left-deep joins, through the real stale cached_stats path (query, mutate, query), and with thread pools of 1..16 threads on a 210-triple dataset; every variant must return the reference solution multiset.",
    note="Interleavings inside a rayon pool are not enumerable (pool sizes are; free-running runs labelled as such); plan variants are built by rewriting the public PhysicalOperator tree; reference evaluator trusted."),
  "C07": dict(level="model_checking", design="§3 C07", technique="exhaustive operand-pair enumeration + operation-sequence tree search on the real SddManager with truth-table oracle + fault enumeration of every checkpoint / node budget of every budgeted operation with continued use of the manager",
    text="Part A: all 256x256x{And,Or} operand pairs over 3 variables for each of the 6 introduction orders (canonical handle = function with that truth table), negation, WMC for 3 weight vectors, model enumeration, gradient, exactly_one over every variable list. Part B: tree search over operation sequences with late variable introduction (to 6 variables quick, 8 thorough), invariant equal tables <=> equal handles. Part C: for every budgeted operation of a representative set (all 3-variable pairs in thorough) every deadline checkpoint k and every node budget n, result Err or the unbudgeted handle, then the same manager is reused (same op, dual op, alternative route, all tracked handles) and a second interrupted operation (bound 2).",
@@ -40,7 +40,7 @@ CHECKS = {
    text="Every seed request (SELECT forms, six update forms, legacy aliases, rejected requests, RULE/REGISTER/RETRIEVE/ML.PREDICT), every single mutation of every seed (incl. multi-byte characters at every offset) and every short token string is submitted to execute_sparql_query, execute_sparql_update, SparqlDatabase::execute_update, handle_update and (SELECTs) the legacy entry point on fresh databases in four states; no panic, the query entry point never changes quads or catalog and refuses every Update, SELECTs never change data, failed updates leave the dataset unchanged.",
    note="Request classification taken from parse_combined_query (C16's subject); crash isolation by worker subprocess."),
  "C03": dict(level="model_checking", design="§3 C03", technique="explicit-state search over sequences of update requests executed on the real database (prefix replay on a fresh database), whole-dataset comparison with a SPARQL Update reference after every step",
-   text="BFS over sequences (depth 4 quick, 5 thorough) of a 34-request alphabet (the six update forms over default and named graphs, swapping / self-referential / graph-variable / blank-node templates, WHERE with FILTER/UNION/VALUES, unbound and literal-subject template variables, 11 malformed or rejected requests) from 3 initial datasets through SparqlDatabase::execute_update; after every step all quads of all graphs (up to blank-node renaming), the catalog bounds, the UpdateSummary counts and acceptance vs rejection are compared with R-update, and a rejected request must leave quads and catalog untouched.",
+   text="BFS over sequences (depth 4 quick, 6 thorough) of a 34-request alphabet (the six update forms over default and named graphs, swapping / self-referential / graph-variable / blank-node templates, WHERE with FILTER/UNION/VALUES, unbound and literal-subject template variables, 11 malformed or rejected requests) from 3 initial datasets through SparqlDatabase::execute_update; after every step all quads of all graphs (up to blank-node renaming), the catalog bounds, the UpdateSummary counts and acceptance vs rejection are compared with R-update, and a rejected request must leave quads and catalog untouched.",
    note="De-duplication on the abstract dataset (sound because the full physical content is compared through all_quads each step; index divergence is C04's subject); term universe U; reference R-update trusted (self-tested)."),
  "C16": dict(level="exploration", design="§3 C16", technique="bounded-exhaustive enumeration of token strings and of single/double mutations of a seed corpus through the real parsers under catch_unwind (crash-isolated workers) + print/parse round trip of every generated AST in 6 layouts",
    text="Totality: every string of <=3 (thorough <=4) tokens over a 30-token alphabet, spaced and glued, every single mutation of ~130 seed requests and every double mutation of the shortest seeds go through parse_combined_query, parse_combined_query_with_options(_, true), parse_sparql_query and parse_group_graph_pattern: never a panic, acceptance implies the whole input was consumed. Faithfulness: every query of the C01 generator list and every update form, printed in 6 layouts (whitespace, comments, keyword case, ;/, abbreviations, optional dots), must parse to a tree equal to the generated AST.",
